@@ -62,9 +62,9 @@ type Ctl struct {
 	// fault plan
 	Faults []Fault
 	// Root is the private directory tree of the run; see guard.go
-	Root  string
-	Root2 string // a second private tree (absolute input root), may be empty
-	devs map[string]*vdev
+	Root       string
+	Root2      string // a second private tree (absolute input root), may be empty
+	devs       map[string]*vdev
 	tmpCounter int
 
 	// recorded
